@@ -70,7 +70,7 @@ def _read_last_cached_time(cache_folder):
         with open(timestamp_filename, "r") as f:
             timestamp = float(f.readline())
             return timestamp
-    except FileNotFoundError or ValueError or IOError:
+    except (FileNotFoundError, ValueError, IOError):
         return 0
 
 
@@ -85,8 +85,11 @@ def _write_last_cached_time(new_time, cache_folder):
         - something went wrong writing to the file
     """
     timestamp_filename = os.path.join(cache_folder, TIMESTAMP_FILENAME)
+    temp_filename = f"{timestamp_filename}.{os.getpid()}.tmp"
     try:
-        with open(timestamp_filename, "w") as f:
+        # Write under a temporary name, then rename atomically: a reader never finds a half-written time.
+        with open(temp_filename, "w") as f:
             f.write(str(new_time))
+        os.replace(temp_filename, timestamp_filename)
     except Exception:
         raise ValueError("Error writing timestamp to hed cache")
